@@ -4,7 +4,11 @@ pub struct Rng(pub u64);
 
 impl Rng {
     pub fn new(seed: u64) -> Self {
-        Rng(seed.wrapping_mul(0x9E3779B97F4A7C15).wrapping_add(0x1234_5678_9ABC_DEF1))
+        // mix once more: the SplitMix increment equals the multiplier above, so
+        // without this, seeds k and k+1 would give the same stream shifted by one draw
+        let mut r = Rng(seed.wrapping_mul(0x9E3779B97F4A7C15).wrapping_add(0x1234_5678_9ABC_DEF1));
+        let s = r.next() ^ seed.rotate_left(17);
+        Rng(s)
     }
     pub fn next(&mut self) -> u64 {
         self.0 = self.0.wrapping_add(0x9E3779B97F4A7C15);
